@@ -284,7 +284,7 @@ def replay_file(pid, path):
         rp = json.load(f)
     if rp.get("history"):
         return rp, run_history(pid, rp["history"])
-    res = guarded_check(mod, rp["case"], pid, mod.TIERS["quick"].get("run_timeout", 20))
+    res = guarded_check(mod, rp["case"], pid, mod.TIERS["quick"].get("run_timeout", 30))
     return rp, [v.as_dict() for v in res.violations]
 
 
@@ -301,7 +301,7 @@ def run_history(pid, hist):
             if case is None:
                 continue
             case["_run"] = {"index": i, "seed": seed, "tier": hist["tier"], "base": hist["base"]}
-            res = guarded_check(mod, case, pid, mod.TIERS["quick"].get("run_timeout", 20))
+            res = guarded_check(mod, case, pid, mod.TIERS["quick"].get("run_timeout", 30))
             last = [v.as_dict() for v in res.violations]
         except (Exception, RunTimeout):
             last = []
@@ -339,8 +339,11 @@ def history_replay(pid, case, v):
 def confirm_in_fresh_process(pid, path):
     """the replay must reproduce the same clause in a fresh interpreter"""
     env = dict(os.environ)
-    p = subprocess.run([sys.executable, os.path.join(VERIF, "bin", "check"), pid, "--replay", path],
-                       capture_output=True, text=True, env=env, timeout=300)
+    try:
+        p = subprocess.run([sys.executable, os.path.join(VERIF, "bin", "check"), pid, "--replay", path],
+                           capture_output=True, text=True, env=env, timeout=900)
+    except subprocess.TimeoutExpired:
+        return False, "replay did not finish within 900 s"
     return p.returncode == 1, p.stdout + p.stderr
 
 
@@ -363,7 +366,7 @@ def main_check(pid, tier, runs=None, budget=None, jobs=None, replay=None, eviden
     n_total = runs or cfg["runs"]
     budget = budget or cfg["budget"]
     jobs = jobs or int(os.environ.get("VERIF_JOBS", "0")) or min(16, os.cpu_count() or 4)
-    run_timeout = cfg.get("run_timeout", 20)
+    run_timeout = cfg.get("run_timeout", 30)
     deadline = t0 + budget
     ctx = multiprocessing.get_context("fork")
     agg = collections.Counter()
